@@ -210,7 +210,7 @@ impl Make for T0 {
         data = roll > 0.80
         nv = rnd.choice([1, 2, 3, 4])
         rulef = ("", "none")
-        if data and rnd.random() < 0.3:
+        if data and rnd.random() < 0.4:
             rulef = rnd.choice(RULES)
             hdr += f"#[serde(rename_all_fields = {q(rulef[0])})]\n"
         vr, vs, vg, vmeta = [], [], [], []
@@ -228,6 +228,7 @@ impl Make for T0 {
             shape = "unit"
             rust_shape = ""
             g = f"{ident}::{vid}"
+            vrule = ("", "none")
             vskip = k > 0 and rnd.random() < 0.08
             if vskip:
                 attrs.append("#[serde(skip)]")
@@ -245,7 +246,10 @@ impl Make for T0 {
                     rust_shape = f"({r1}, {r2})"
                     g = f"{ident}::{vid}({g1}, {g2})"
                 elif sr < 0.9:
-                    fr, fs, fg = gen_fields(rulef, ["p", "q_r", "s", "long_one"])
+                    if rnd.random() < (0.6 if rulef[1] != "none" else 0.25):
+                        vrule = rnd.choice([r for r in RULES if r != rulef])
+                        attrs.append(f"#[serde(rename_all = {q(vrule[0])})]")
+                    fr, fs, fg = gen_fields(vrule if vrule[1] != "none" else rulef, ["p", "q_r", "s", "long_one", "two_words_here"])
                     # no skipped fields in variants (keeps the value generator simple)
                     if any(" 1 " in f.split(")")[-2] if False else False for f in fs):
                         pass
@@ -253,7 +257,7 @@ impl Make for T0 {
                     rust_shape = " {\n" + "\n".join("    " + l.replace("pub ", "") for l in "\n".join(fr).split("\n")) + "\n    }"
                     g = f"{ident}::{vid} {{ " + ", ".join(fg) + " }"
             vr.append("".join(f"    {a}\n" for a in attrs) + f"    {vid}{rust_shape},")
-            vs.append(f"(var {hx(vid)} {hx(vrename) if vrename else '-'} {int(vskip)} {int(k == 0)} {shape})")
+            vs.append(f"(var {hx(vid)} {hx(vrename) if vrename else '-'} {int(vskip)} {int(k == 0)} {vrule[1]} {shape})")
             vmeta.append((vskip, shape != "unit"))
             if not vskip:
                 vg.append(g)
